@@ -1511,12 +1511,17 @@ func (u *Unit) execSelect(st *State, x *ast.SelectStmt, label string) []*Out {
 		// a fresh choice literal keeps the branches distinguishable after merging
 		s.assume(u.d.Fresh("select", SBool))
 		if c.Comm != nil {
+			// the receive anchors of a comm clause fire here (with the received value bound), not in the
+			// evaluation of the receive expression
+			u.inComm++
 			switch cm := c.Comm.(type) {
 			case *ast.SendStmt:
 				u.execSend(s, cm)
 			case *ast.ExprStmt:
 				v := u.eval(s, cm.X)
+				u.inComm--
 				u.recvAnchor(s, cm.X, &v)
+				u.inComm++
 			case *ast.AssignStmt:
 				u.execAssign(s, cm)
 				if len(cm.Rhs) == 1 {
@@ -1530,6 +1535,7 @@ func (u *Unit) execSelect(st *State, x *ast.SelectStmt, label string) []*Out {
 					}
 				}
 			}
+			u.inComm--
 		}
 		outs = append(outs, u.execBlock(s, c.Body)...)
 	}
